@@ -35,7 +35,7 @@ def ext_index(i, n, mode):
 def dwt_rule(n, L, mode):
     """pywt.dwt along one axis.  Returns list over k of list of (tap j, input position)."""
     out = []
-    if mode == 'periodization':
+    if mode in ('periodization', 'per'):          # 'per' is the library's documented short spelling
         ne = n + (n % 2)
         for k in range(ne // 2):
             row = []
@@ -60,7 +60,7 @@ def idwt_rule(m, L, mode):
     """pywt.idwt along one axis for coefficient length m.
     Returns list over n of list of (tap index, coefficient position k) (same for both bands)."""
     out = []
-    if mode == 'periodization':
+    if mode in ('periodization', 'per'):
         n_out = 2 * m
         for n in range(n_out):
             row = []
